@@ -281,6 +281,37 @@ def replay_any(ctx, case):
         check_case(ctx, case)
 
 
+# ---- the conversion as the slice converter applies it -------------------------
+def run_slices(ctx, n):
+    """16-bit slices into a uint8 dataset (and 8/16-bit into every wider
+    type): the slice converter is a caller of the conversion, its output must
+    saturate as well.  Oracle and generator are those of the C15 check."""
+    from checks import c15_slices
+
+    @st.composite
+    def strat(draw):
+        case = draw(c15_slices.cases(draw(st.sampled_from(
+            ["RAS", "LPI", "ASR", "IRP", "SPL"]))))
+        case["pix"] = "uint16" if case["layout"] != "rgb" else "uint8"
+        if case["pix"] == "uint16":
+            case["out"] = draw(st.sampled_from(["uint8", "uint8", "uint16"]))
+        case["block"] = None
+        return case
+
+    def check(ctx, case):
+        c15_slices.check_case(ctx, case)
+        ctx.record(case, case["pix"] == "uint16" and case["out"] == "uint8",
+                   ["slices", "%s->%s" % (case["pix"], case["out"])])
+    ctx.run_hypothesis(strat(), check, n)
+
+
+def replay_slices(ctx, case):
+    from checks import c15_slices
+    c15_slices.check_case(ctx, case)
+
+
 SUBS = [Sub("convert", run, replay_any, quick=12000, thorough=500000),
+        Sub("slices", run_slices, replay_slices, quick=60, thorough=1500,
+            shards=4),
         Sub("large", run_large, replay_any, quick=120, thorough=3000,
             min_per_shard=8)]
